@@ -59,6 +59,8 @@ class Leaf:
 
     def glomit(self, target, scope):
         r = self.run
+        if self.kind == 'fail':
+            raise PlantedError(0)
         r.leaf += 1
         n = r.leaf
         if n <= len(r.plan) and r.plan[n - 1] == 'err':
@@ -170,7 +172,7 @@ def build(tree, run, path=(), index=None):
 
     def child(i):
         return build(c[i], run, path + (i + 1,), index)
-    if k in ('new', 'same'):
+    if k in ('new', 'same', 'fail'):
         s = Leaf(run, k, path)
     elif k == 'probe':
         s = Probe(run, path)
